@@ -68,6 +68,7 @@ def explore(ctx, depth):
     import kernpy as kp
     cases = docrun.make_cases(ctx, 30 if depth == 'quick' else 300, kern_only=True, max_measures=5 if depth == 'quick' else 7, double_bars=True)
     docrun.fill_views(ctx, cases, 'kern', docrun.ALLC, '_v')
+    docrun.raw_range_tie(ctx, docrun.raw_cases(ctx, [c.adoc for c in cases[:6 if depth == 'quick' else 60]], kinds=('plus', 'late-header', 'blank')))
     all_exps = []
     for case in cases:
         starts = measure_rows(case.adoc)
